@@ -529,7 +529,17 @@ func applyOp[V any](m *ordered.Map[string, V], p *refmodel.PairList[V], op omOp,
 				v = vals[len(visited)]
 			}
 			visited = append(visited, k)
+			if len(visited)%2 == 1 {
+				// the callback may look at the map it is iterating (read-only observers, themselves iterations)
+				_ = m.ToMap()
+				_, _ = m.MarshalJSON()
+				_ = m.Range(func(string, V) error { return nil })
+			}
 			m.Replace(k, rename(k), v)
+			if len(visited)%2 == 0 {
+				_ = m.ToMap()
+				_ = m.Len()
+			}
 			return nil
 		})
 		if err != nil {
